@@ -13,11 +13,18 @@ pub struct TxIds {
     ns: Uuid,
     known: HashMap<Uuid, u64>,
     upto: u64,
+    filled: u64,
 }
 
 impl TxIds {
     pub fn new() -> Self {
-        TxIds { ns: Uuid::from_u128(NS), known: HashMap::new(), upto: 0 }
+        TxIds { ns: Uuid::from_u128(NS), known: HashMap::new(), upto: 0, filled: 0 }
+    }
+    /// the generator was (re)started at counter `c`: ids are looked up from there on (wrapping)
+    pub fn rebase(&mut self, c: u64) {
+        self.known.clear();
+        self.upto = c;
+        self.filled = 0;
     }
     /// maps a transaction id back to the counter value it was derived from (v5(ns, k) computed
     /// independently here)
@@ -28,8 +35,9 @@ impl TxIds {
             }
             for _ in 0..4096 {
                 let u = Uuid::new_v5(&self.ns, self.upto.to_string().as_bytes());
-                self.known.insert(u, self.upto);
-                self.upto += 1;
+                self.known.entry(u).or_insert(self.upto);
+                self.upto = self.upto.wrapping_add(1);
+                self.filled += 1;
             }
         }
         "?".to_string()
@@ -45,6 +53,7 @@ pub struct Exec {
     pub txids: TxIds,
     pub out: Vec<(String, String)>,
     pub hung: bool,
+    pub after_conc: bool,
     pub queue: OrderQueue,
     /// C11: a level restored from a snapshot of `lvl`, fed the same continuation
     pub fork: Option<(PriceLevel, UuidGenerator)>,
@@ -123,6 +132,7 @@ impl Exec {
             txids: TxIds::new(),
             out: Vec::new(),
             hung: false,
+            after_conc: false,
             queue: OrderQueue::new(),
             fork: None,
             price: 0,
@@ -196,6 +206,8 @@ impl Exec {
                 self.lvl = Arc::new(PriceLevel::new(p));
                 self.generator = Arc::new(UuidGenerator::new(Uuid::from_u128(NS)));
                 self.cprog.clear();
+                self.after_conc = false;
+                self.txids.rebase(0);
                 self.price = p;
                 self.fork = None;
                 self.issued = 0;
@@ -203,6 +215,20 @@ impl Exec {
                 self.n_removed = 0;
                 self.sum_exec = 0;
                 self.emit(line, "new");
+            }
+            ["newgen", c] => {
+                // a generator restored from its serialized form with the counter at `c`
+                let Ok(c) = c.parse::<u64>() else { return false };
+                let js = format!("{{\"namespace\":\"{}\",\"counter\":{}}}", Uuid::from_u128(NS), c);
+                match serde_json::from_str::<UuidGenerator>(&js) {
+                    Ok(g) => {
+                        self.generator = Arc::new(g);
+                        self.txids.rebase(c);
+                        self.issued = c;
+                        self.emit(line, "newgen");
+                    }
+                    Err(e) => self.emit(line, format!("newgen err={}", e.to_string().replace(' ', "_"))),
+                }
             }
             ["add", o] => {
                 let Some(o) = parse_order(o) else { return false };
@@ -239,13 +265,26 @@ impl Exec {
                         self.emit(format!("judge.C06 {} {} {} {} {}", q, txs, r.remaining_quantity, pre, post), "J C06 ok");
                         let makers: Vec<String> = r.transactions.as_vec().iter().map(|t| format!("{}:{}", show_id(&t.maker_order_id), t.quantity)).collect();
                         self.emit(format!("judge.C04 [{}]", makers.join(",")), "J C04 ok");
+                        self.emit(format!("judge.C14s {} {}", self.issued, txs), "J C14 ok");
+                        if self.after_conc {
+                            // the draining match after a concurrent run: nothing displayed may be left
+                            // and the aggregates must describe exactly what remains (C08)
+                            self.emit(
+                                format!(
+                                    "judge.C08d {} {} {} {} {} {} {} {}",
+                                    q, txs, r.remaining_quantity, pre, post,
+                                    self.lvl.visible_quantity(), self.lvl.hidden_quantity(), self.lvl.order_count()
+                                ),
+                                "J C08 ok",
+                            );
+                        }
                         if let Some((f, g)) = &self.fork {
                             if let Ok(fr) = catch_unwind(AssertUnwindSafe(|| f.match_order(q, taker, g))) {
                                 let fm: Vec<String> = fr.transactions.as_vec().iter().map(|t| format!("{}:{}", show_id(&t.maker_order_id), t.quantity)).collect();
                                 self.emit(format!("judge.C11 [{}] [{}]", makers.join(","), fm.join(",")), "J C11 ok");
                             }
                         }
-                        self.issued += r.transactions.as_vec().len() as u64;
+                        self.issued = self.issued.wrapping_add(r.transactions.as_vec().len() as u64);
                         self.sum_exec += r.transactions.as_vec().iter().map(|t| t.quantity as u128).sum::<u128>();
                         self.judge_stats();
                     }
@@ -325,13 +364,13 @@ impl Exec {
                                         for t in inner.split(',').filter(|x| !x.is_empty()) {
                                             let f: Vec<&str> = t.split(':').collect();
                                             if f.len() == 6 {
-                                                self.issued += 1;
+                                                self.issued = self.issued.wrapping_add(1);
                                                 self.sum_exec += f[4].parse::<u128>().unwrap_or(0);
                                             }
                                         }
                                     }
                                 }
-                                Some(crate::conc::COp::Next) => self.issued += 1,
+                                Some(crate::conc::COp::Next) => self.issued = self.issued.wrapping_add(1),
                                 _ => {}
                             }
                         }
@@ -346,6 +385,7 @@ impl Exec {
                             r.obs.join(",")
                         ),
                     );
+                    self.after_conc = true;
                     let post_listing = listing(&self.lvl);
                     let tr = r.trace.join(";");
                     let rets_s = rets.join("#");
@@ -365,7 +405,7 @@ impl Exec {
                     self.judge_stats();
                 }
             }
-            ["rebuild", kind] | ["fork", kind] => {
+            ["rebuild", kind, ..] | ["fork", kind, ..] => {
                 let is_fork = t[0] == "fork";
                 let pre = show_state_content(&self.lvl);
                 let snap = self.lvl.snapshot();
@@ -391,6 +431,39 @@ impl Exec {
                             s2.order_count = s2.order_count.wrapping_add(2);
                             PriceLevel::from_snapshot(s2).map_err(|e| e.to_string())
                         }
+                        "lying-from" | "lying-package" | "lying-json" => {
+                            let mut s2 = snap.clone();
+                            s2.visible_quantity = s2.visible_quantity.wrapping_add(23);
+                            s2.hidden_quantity = s2.hidden_quantity.wrapping_add(5);
+                            s2.order_count = s2.order_count.wrapping_add(1);
+                            match *kind {
+                                "lying-from" => Ok(PriceLevel::from(&s2)),
+                                "lying-package" => pricelevel::PriceLevelSnapshotPackage::new(s2)
+                                    .and_then(PriceLevel::from_snapshot_package)
+                                    .map_err(|e| e.to_string()),
+                                _ => pricelevel::PriceLevelSnapshotPackage::new(s2)
+                                    .and_then(|p| p.to_json())
+                                    .and_then(|j| PriceLevel::from_snapshot_json(&j))
+                                    .map_err(|e| e.to_string()),
+                            }
+                        }
+                        "lying-serde" => {
+                            let mut d = pricelevel::PriceLevelData::from(lvl);
+                            d.visible_quantity = d.visible_quantity.wrapping_add(4);
+                            d.hidden_quantity = d.hidden_quantity.wrapping_add(40);
+                            d.order_count = 0;
+                            serde_json::to_string(&d)
+                                .map_err(|e| e.to_string())
+                                .and_then(|j| serde_json::from_str::<PriceLevel>(&j).map_err(|e| e.to_string()))
+                        }
+                        "lying-text" => {
+                            use std::str::FromStr;
+                            let orders: Vec<String> = raw_listing.iter().map(|o| o.to_string()).collect();
+                            let txt = format!(
+                                "PriceLevel:price={};visible_quantity={};hidden_quantity={};order_count={};orders=[{}]",
+                                lvl.price(), lvl.visible_quantity().wrapping_add(3), 77, 12345, orders.join(","));
+                            PriceLevel::from_str(&txt).map_err(|e| e.to_string())
+                        }
                         "lying-data" => {
                             let mut d = pricelevel::PriceLevelData::from(lvl);
                             d.visible_quantity = d.visible_quantity.wrapping_add(9);
@@ -405,20 +478,17 @@ impl Exec {
                 match res {
                     Ok(Ok(newl)) => {
                         if is_fork {
-                            self.fork = Some((newl, UuidGenerator::new(Uuid::from_u128(NS))));
                             // the fork's generator must be at the same counter as the main one
-                            if let Some((_, g)) = &self.fork {
-                                for _ in 0..self.issued {
-                                    let _ = g.next();
-                                }
-                            }
+                            let js = format!("{{\"namespace\":\"{}\",\"counter\":{}}}", Uuid::from_u128(NS), self.issued);
+                            let g: UuidGenerator = serde_json::from_str(&js).expect("generator json");
+                            self.fork = Some((newl, g));
                             self.emit(line_in, "fork ok");
                         } else {
                             self.lvl = Arc::new(newl);
                             // statistics start afresh in a rebuilt level
                             self.n_removed = 0;
                             self.sum_exec = 0;
-                            self.n_adds = if matches!(*kind, "data" | "serde" | "text" | "lying-data") { ids.len() as u64 } else { 0 };
+                            self.n_adds = if matches!(*kind, "data" | "serde" | "text" | "lying-data" | "lying-serde" | "lying-text") { ids.len() as u64 } else { 0 };
                             self.emit(line_in, "rebuild ok");
                             let post = show_state_content(&self.lvl);
                             self.emit(format!("judge.C10 {pre} {post}"), "J C10 ok");
